@@ -34,4 +34,10 @@ func (r *Response) FetchPayload(maxPayloadSize int64) (err error)
   ensures chunked-within-limit-passes-intact: effLimit(maxPayloadSize) >= 0 && r.Response.ContentLength < 0 && old(rdRem[respBodyOf(r)]) <= effLimit(maxPayloadSize) && !rdFail[respBodyOf(r)] ==> err == nil && len(r.payload) == old(rdRem[respBodyOf(r)]) && r.stream == nil
   ensures chunked-over-limit-rejected: effLimit(maxPayloadSize) >= 0 && r.Response.ContentLength < 0 && old(rdRem[respBodyOf(r)]) > effLimit(maxPayloadSize) && !rdFail[respBodyOf(r)] ==> err == ErrResponseEntityTooLarge
   ensures success-never-exceeds-limit: effLimit(maxPayloadSize) >= 0 && err == nil ==> len(r.payload) <= effLimit(maxPayloadSize)
+
+func NewResponse(stdr *http.Response) (r *Response, err error)
+  flag allocates
+  ensures err == nil && r != nil && fresh(r) && r.Response != nil && r.stream == nil && len(r.payload) == 0
+  ensures wraps-the-given-response: stdr != nil ==> r.Response == stdr
+  ensures default-is-200: stdr == nil ==> fresh(r.Response) && r.Response.StatusCode == 200
 @*/
